@@ -546,4 +546,15 @@ example : entropyBytes 0 = 32 ∧ entropyBytes 16 = 32 ∧ entropyBytes 64 = 64 
 
 end Examples
 
+/-- A user code is never handed out without its signature: with a global secret shorter than 32 bytes
+    `GenerateUserCode` fails (and returns neither code nor signature), otherwise the code has the configured
+    length.  (Before repair affaba5 the signing error was dropped and an empty code with an empty signature was
+    returned as a success.) -/
+theorem user_code_needs_usable_secret (g : Fosite.Model.HMAC.Bytes) (n : Nat) :
+    (Fosite.Model.HMAC.generateUserCode g n).isSome ↔ 32 ≤ g.length := by
+  unfold Fosite.Model.HMAC.generateUserCode Fosite.Model.HMAC.minimumSecretLength
+  by_cases h : g.length < 32
+  · simp [h]
+  · simp [h]; omega
+
 end Fosite.Props.C06
